@@ -14,7 +14,7 @@
    model in its list (expiring_model_is_listed).
    Finding D22 (confirmed on the real code and repaired, see KNOWN_FINDINGS.txt): a force-push
    leaves the model with expiry height 0, so the model outlives all of its shards. *)
-From SaoVerif Require Import Base.Prelude Base.Ints Base.Dec Model.Did Model.Types Model.Monad Model.Bank Model.Select Model.Node Model.Storage Model.Sao Model.Hooks Model.App Model.Spec Proofs.Schedule Proofs.RefInt Proofs.History Proofs.MetaSched.
+From SaoVerif Require Import Base.Prelude Base.Ints Base.Dec Model.Did Model.Types Model.Monad Model.Bank Model.Select Model.Node Model.Storage Model.Sao Model.Hooks Model.App Model.Spec Proofs.Schedule Proofs.RefInt Proofs.History Proofs.MetaSched Proofs.DataSched.
 From RecordUpdate Require Import RecordUpdate.
 Import RecordSetNotations.
 
@@ -80,3 +80,27 @@ Theorem C11_meta_scheduled_nonvacuous :
   match metas (run History.hist_run W.s2) !! W.data with Some m => expiry m | None => 0 end = 3610.
 Proof. first [exact meta_scheduled_nonvacuous | apply meta_scheduled_nonvacuous]. Qed.
 Print Assumptions C11_meta_scheduled_nonvacuous.
+
+(* the full invariant of the data-expiry schedule - listed exactly once and nothing stale or duplicated - one operation *)
+Theorem C11_step_data_schedule : forall cx s op, height_ok cx -> Inv_ds s -> Inv_ds (fst (step cx s op)).
+Proof. first [exact step_data_schedule | apply step_data_schedule]. Qed.
+Print Assumptions C11_step_data_schedule.
+
+(* ... and every history *)
+Theorem C11_run_data_schedule : forall tr s,
+  Forall (fun co : Ctx * Op => height_ok co.1) tr -> Inv_ds s -> Inv_ds (run tr s).
+Proof. first [exact run_data_schedule | apply run_data_schedule]. Qed.
+Print Assumptions C11_run_data_schedule.
+
+Theorem C11_scheduled_entry_is_live : forall tr s h l d,
+  Forall (fun co : Ctx * Op => height_ok co.1) tr -> Inv_ds s ->
+  expdata (run tr s) !! h = Some l -> In d l -> exists m, metas (run tr s) !! d = Some m /\ expiry m = h.
+Proof. first [exact scheduled_entry_is_live | apply scheduled_entry_is_live]. Qed.
+Print Assumptions C11_scheduled_entry_is_live.
+
+Theorem C11_data_schedule_nonvacuous :
+  Inv_ds W.s2 /\ expdata W.s2 !! 3606 = Some [W.data] /\
+  Forall (fun co : Ctx * Op => height_ok co.1) History.hist_run /\
+  map_to_list (expdata (run History.hist_run W.s2)) = [(3610, [W.data])].
+Proof. first [exact data_schedule_nonvacuous | apply data_schedule_nonvacuous]. Qed.
+Print Assumptions C11_data_schedule_nonvacuous.
